@@ -299,7 +299,7 @@ def jobs(tier, seed):
         cfg["om"] = rng.choice([0, 0, 0, 1, 2])
         progs = [[rng.choice(OPS) for _ in range(rng.randint(1, 2))] for _ in range(2)]
         out.append((cfg, rng.choice(inits), progs, 1))
-    for _ in range(60 if tier == "thorough" else 16):      # three threads
+    for _ in range(12 if tier == "thorough" else 16):      # three threads (thorough: with one pre-emption, ~850 executions each)
         cfg = dict(rng.choice(cfgs))
         progs = [[rng.choice(OPS)] for _ in range(3)]
         # quick: every order in which the three can take turns at completion / blocking points, no pre-emption
